@@ -117,12 +117,15 @@ def _(self, query, cache=None, description=None, store_key=None, store_to=None, 
     g = module("liquer.cache")._cache
     bypass = (not isnone(extra_parameters) and len(unopt(extra_parameters)) > 0) or not isnone(input_value) or input_value_specified
     c = ite(isnone(cache), g, unopt(cache))
+    raises(EvaluationException, label="a-nested-evaluation-or-a-link-argument-failed")
     raises(Exception, label="evaluation-exceptions-propagate")
     modifies_any("State.metadata")
     modifies_any("State.status")
     modifies_any("State.context")
     modifies_all(self)
     modifies(c.cmeta, c.cdata, g.cmeta, g.cdata)
+    ensures(implies(log_raised("Context.evaluate") > 0, self.is_error and self.status == "error"),
+            "onraise:EvaluationException:C18:a-failure-coming-up-from-a-nested-evaluation-is-recorded-at-this-level-before-it-goes-on")
     ensures(implies(old(isnone(self.query)) and bypass, log_count("Cache.get") == 0), "lookup-bypassed-for-extra-parameters-and-input-values")
     ensures(implies(old(isnone(self.query)) and log_count("Cache.get") > 0,
                     log_arg("Cache.get", "key") == canonical(unopt(self.query)) and log_arg("Cache.get", "self") is c),
@@ -157,6 +160,8 @@ def _(self, query, cache=None, description=None, store_key=None, store_to=None, 
     ensures(implies(old(not isnone(self.query)), self.raw_query == old(self.raw_query) and self.query == old(self.query)
                     and self.parent_query == old(self.parent_query)),
             "a-sub-query-evaluated-through-a-busy-context-leaves-that-context's-own-query-alone")
+    ensures(implies(old(not isnone(self.query)), self.enable_store_metadata == old(self.enable_store_metadata)),
+            "C18:a-sub-query-leaves-the-metadata-writing-switch-of-the-asking-evaluation-as-it-was")
 
 
 prop("C05", fucs=["liquer.context.Context.evaluate", "liquer.context.Context.create_initial_state"])
